@@ -996,8 +996,11 @@ pub fn actor_main(id: usize, actor: Actor, t: Arc<Tables>) {
     };
     if traced {
         if let Some(n) = fastrace::verif::parked_commands() {
+            let free = fastrace::verif::ring_free_slots().unwrap_or(0);
             if n > 0 {
-                s.world().push_log(Some(id), Ev::Note(format!("parked-at-exit:{n}")));
+                // with room in the ring the thread-exit flush must still deliver them
+                let tag = if free >= n { "parked-at-exit-with-room" } else { "parked-at-exit" };
+                s.world().push_log(Some(id), Ev::Note(format!("{tag}:{n}:{free}")));
             }
         }
     }
